@@ -63,7 +63,11 @@ static void build_kf(econf_file *kf, const char *spec)
       if (!e) e = p + strlen(p);
       memset(&kf->file_entry[i], 0, sizeof(struct file_entry));
       kf->file_entry[i].group = dec_raw(p + 1, (size_t)(c - p - 1) / 2);
-      kf->file_entry[i].key = dec_raw(c + 2, (size_t)(e - c - 2) / 2);
+      const char *c2 = memchr(c + 1, ':', (size_t)(e - c - 1));       /* optional third field: the value, '-' = NULL */
+      const char *ke = c2 ? c2 : e;
+      kf->file_entry[i].key = dec_raw(c + 2, (size_t)(ke - c - 2) / 2);
+      if (c2 && c2[1] == 'h') kf->file_entry[i].value = dec_raw(c2 + 2, (size_t)(e - c2 - 2) / 2);
+      kf->file_entry[i].line_number = 10 + i;
       p = *e ? e + 1 : e;
     }
   } else {
@@ -81,15 +85,76 @@ static void build_kf(econf_file *kf, const char *spec)
 }
 static void free_kf(econf_file *kf)
 {
-  for (size_t i = 0; i < kf->length; i++) { free(kf->file_entry[i].group); free(kf->file_entry[i].key); }
+  for (size_t i = 0; i < kf->length; i++) { free(kf->file_entry[i].group); free(kf->file_entry[i].key); free(kf->file_entry[i].value); }
   free(kf->file_entry);
   for (int i = 0; i < kf->group_count; i++) free(kf->groups[i]);
   free(kf->groups);
 }
 static char *argstr(const char *t) { return (!t || t[0] == '-') ? NULL : dec(t); }
 
+static void put_opt(const char *s) { if (s) put_hex(s); else putchar('-'); }
+static void put_groups(const econf_file *kf)
+{
+  printf(" g");
+  for (int i = 0; i < kf->group_count; i++) { if (i) putchar(','); put_hex(kf->groups[i]); }
+  if (kf->groups && kf->groups[kf->group_count] != NULL) printf(" NOT-TERMINATED");
+}
+
+/* the copying functions: setGroupList, cpy_file_entry, and the three steps of econf_mergeFiles in its order */
+static int merge_function(const char *f, char **tok, int n)
+{
+  if (!strcmp(f, "setGroupList")) {
+    econf_file kf; build_kf(&kf, tok[1]);
+    char *a = argstr(tok[2]);
+    char *r = setGroupList(&kf, a);
+    int at = -1;
+    for (int i = 0; i < kf.group_count; i++) if (kf.groups[i] == r) at = i;
+    printf("%s %d", f, at); put_groups(&kf); printf("\n");
+    free(a); free_kf(&kf);
+    return 1;
+  }
+  if (!strcmp(f, "cpy_file_entry")) {
+    econf_file dest, src; build_kf(&dest, tok[1]); build_kf(&src, tok[2]);
+    size_t i = strtoull(tok[3] + 1, NULL, 10);
+    src.file_entry[i].quotes = true;
+    struct file_entry c = cpy_file_entry(&dest, src.file_entry[i]);
+    int at = -1;
+    for (int k = 0; k < dest.group_count; k++) if (dest.groups[k] == c.group) at = k;
+    printf("%s %d ", f, at); put_hex(c.key); putchar(' '); put_opt(c.value); putchar(' '); put_opt(c.comment_before_key); putchar(' ');
+    put_opt(c.comment_after_value); printf(" %llu %d", (unsigned long long)c.line_number, (int)c.quotes);
+    put_groups(&dest); printf("\n");
+    free(c.key); free(c.value); free(c.comment_before_key); free(c.comment_after_value);
+    free_kf(&dest); free_kf(&src);
+    return 1;
+  }
+  if (!strcmp(f, "merge3")) {
+    econf_file uf, ef, dest; build_kf(&uf, tok[1]); build_kf(&ef, tok[2]);
+    memset(&dest, 0, sizeof dest);
+    struct file_entry *fe = malloc((ef.length + uf.length) * sizeof(struct file_entry) + ((ef.length + uf.length) ? 0 : 1));
+    size_t len = insert_nogroup(&dest, &fe, &uf, &ef);
+    printf("%s %zu", f, len);
+    len = merge_existing_groups(&dest, &fe, &uf, &ef, len);
+    printf(" %zu", len);
+    len = add_new_groups(&dest, &fe, &uf, &ef, len);
+    printf(" %zu e", len);
+    for (size_t i = 0; i < len; i++) {
+      int at = -1;
+      for (int k = 0; k < dest.group_count; k++) if (dest.groups[k] == fe[i].group) at = k;
+      if (i) putchar(',');
+      printf("%d:", at); put_hex(fe[i].key); putchar(':'); put_opt(fe[i].value); printf(":%llu:%d", (unsigned long long)fe[i].line_number, (int)fe[i].quotes);
+    }
+    put_groups(&dest); printf("\n");
+    for (size_t i = 0; i < len; i++) { free(fe[i].key); free(fe[i].value); }
+    free(fe);
+    free_kf(&dest); free_kf(&uf); free_kf(&ef);
+    return 1;
+  }
+  return 0;
+}
+
 static int kf_function(const char *f, char **tok, int n)
 {
+  if (merge_function(f, tok, n)) return 1;
   if (strcmp(f, "has_group") && strcmp(f, "first_entry") && strcmp(f, "first_definition") && strcmp(f, "find_key") &&
       strcmp(f, "getFromGroupList"))
     return 0;
